@@ -24,6 +24,7 @@ import (
 	"errors"
 	"fmt"
 	"net"
+	"os"
 	"sort"
 	"sync"
 	"sync/atomic"
@@ -1176,6 +1177,13 @@ func run(t *testing.T, p plan) vk.Result {
 		}
 		for _, ua := range r.uas {
 			res = res.With("ua_" + ua.kind)
+			if ua.kind == "kept_but_restarted" && os.Getenv("VERIF_C30_STRICT_KEPT") != "" {
+				// Not part of the C30 statement (see notes/C30.md): opt-in strict reading
+				// of the SubConn.UpdateAddresses documentation.
+				v := vk.Bad("subchannel %d: UpdateAddresses(%v) kept the connected address %s in the list, but the connection was given up and a new attempt started (documentation: \"If it's in the list, the connection will be kept\") (history%s)", r.id, ua.list, ua.old.addr, fmtUpds(c, r))
+				v.Sig = "c30.update_addresses_kept_address_reconnects"
+				return v
+			}
 			if ua.kind == "supersede" && ua.old != nil && ua.old.ended {
 				superseded = true
 				res = res.With("superseded_dial_" + ua.old.outcome)
